@@ -34,6 +34,7 @@ func checkC14(c *Ctx, r *Report) {
 	muxAnyQuestion(c, r, "C14.R5.any-question")
 	defaultsSameField(c, r, "C14.R3.defaults-same-field")
 	borrow(c, r, c12R4, "C12.R4.pool-release", "C14.R1.pool-release", 2, "the receive buffer is not used after it went back to the pool", nil, "TSIG stripping rewrites the header of the next datagram read into the buffer: that request is answered under another ID, or reaches the handler changed")
+	freshReplies(c, r, "C14.R2.fresh-replies")
 }
 
 func isHandlerInvoke(in ssa.Instruction) bool {
